@@ -48,7 +48,8 @@ def run(ctx, kspec):
         timeout_ms = 60000 if ctx.tier == "quick" else 300000
         cmd = [os.path.join(VERIF, "bin/gosym"), "-dir", REPO, "-pkg", ".", "-overlay", ov, "-run", k["harness"], "-labels", k["labels"],
                "-strings", "theory", "-strmax", str(strmax), "-splitmax", str(b.get("splitmax", k.get("splitmax", 4))), "-init",
-               "-out", res_path, "-workers", str(k.get("workers", 8)), "-timeout", str(timeout_ms), "-unwind", str(k.get("unwind", 6))]
+               "-out", res_path, "-workers", str(k.get("workers", 8)), "-timeout", str(timeout_ms), "-unwind", str(k.get("unwind", 6)),
+               "-witnesses", "3" if ctx.tier == "quick" else "10", "-seed", str(ctx.seed)]
         # z3 5.1.0 decides the bit-vector string kernels in seconds where 4.8.12 times out (measured)
         cmd += ["-solver", k.get("solver", "z3-new")]
         if ctx.tier == "thorough" and k.get("solver2", "z3"):
@@ -127,6 +128,16 @@ def judge(ctx, kspec, res):
                 reach[o["label"]] = reach.get(o["label"], False) or v == "sat"
                 if v not in ("sat", "unsat"):
                     ctx.errors.append("%s %s: reachability inconclusive (%s)" % (h["harness"], o["label"], v))
+                continue
+            if o["kind"] == "witness-random":
+                if v != "sat":
+                    continue
+                rep = replay(ctx, res["overlay"], h["harness"], o.get("model"))
+                o["native"] = rep
+                bad = [x for x in (rep.get("failed") or []) if lre.search(x)] or rep.get("panic") or rep.get("crash") or rep.get("desync") or rep.get("assume_failed")
+                proved = all(x["verdict"] == "unsat" for x in h["obligations"] if x["kind"] in ("violation", "panic"))
+                if bad and proved:
+                    ctx.errors.append("%s: randomised witness fails natively although every obligation was proved (engine unsound?): %s" % (h["harness"], json.dumps(rep)[:600]))
                 continue
             if o["kind"] == "witness":
                 if v != "sat":
